@@ -43,7 +43,7 @@ VALUATIONS = [
     [('A1', 1.23456789e-10), ('B1', 7e-14), ('C1', 2.5e15), ('D1', -3.3e-7), ('E1', 4.1e-9), ('A2', 'q'), ('B2', 'r')],
 ]
 NLITS = ['4', '9', '2.5', '0.5', '10']
-TLITS = ['"x"', '"yy"', '"a"']
+TLITS = ['"x"', '"yy"', '"a"', '"a  b"', '"p\tq"', '" lead"', '"trail  "', '"l1\nl2"', '"a b"']
 
 
 def atoms_for(kinds, variant):
@@ -216,7 +216,7 @@ SPECIAL = ['=A1%%', '=5%%', '=A1%%+B1', '=(A1)%%', '=-A1%', '=-A1%*-B1%', '=-(A1
            '=A1*B1&C1/A1', '=A1<>B1&C1', '=A1-B1-C1-D1-E1', '=A1/B1/C1/D1', '=A1-B1+C1-D1+E1', '=A1/B1*C1/D1*E1',
            '=A1+B1*C1-D1/E1', '=A1*B1+C1*D1', '=A1+G1', '=G1+G1', '=G1*A1', '=G1-A1', '=-G1', '=G1%', '=A1/G1', '=G1=0',
            '=2.5+A1', '=0.5*4', '=10/4', '=TRUE+1', '=TRUE*FALSE', '=TRUE()+A1', '=FALSE()=FALSE', '="a"="a"', '="a"<>"b"',
-           '="x"&"yy"&"a"', '="a"<"b"', '=A2&B2<C2&D2', '= A1 + B1', '=A1 +B1* C1', '=( A1+B1 )*C1', '=A1+\tB1']
+           '="x"&"yy"&"a"', '="a"<"b"', '="a  b"&"c"', '="x  y"="x y"', '="x  y"<>"x y"', '="t\tu"&1', '="l1\nl2"&A2', '=A2&"  "&B2', '="  "&A1&"  "', '=" a"=" a"', '="a  "="a "', '=A2&B2<C2&D2', '= A1 + B1', '=A1 +B1* C1', '=( A1+B1 )*C1', '=A1+\tB1']
 
 
 def classify(f, out):
